@@ -161,6 +161,11 @@ func constEvalRejects(fn *ssa.Function, pi int, k int64) (rejects bool, decided 
 }
 
 func checkC01(p *Program, r *Report) {
+	prefixWindowRule(p, r, "C01.prefix")
+	r.Floor("C01.prefix", 2)
+	if n := sharedStateRule(p, r, NewEffects(p), "C01.shared", []string{"address.go", "hash160.go", "hash256.go", "base58/base58check.go", "base58/base58.go"}); n > 0 {
+		r.Floor("C01.shared", 20)
+	}
 	r.Explain = "C01.tables: CashAddr and Base58 alphabets and decode tables agree symbol by symbol and equal the specifications'. C01.kinds: for every address type, " +
 		"what EncodeAddress hands to the packer / Base58Check (address-type constant, number of hash bytes that arrive after every re-slice) is accepted by the " +
 		"packer, loses no byte of the type's hash array, and is mapped back by a reachable decode arm of DecodeAddress to the same Go type; version bytes agree " +
